@@ -134,7 +134,14 @@ fn exh3<K: BoolKind>(order: &[u32], threads: u32, aq_sample: u64, sub_sample: u6
             for code in 0..total {
                 let repl_t: Vec<u8> = (0..k).map(|i| PALETTE[(code >> (4 * i)) & 15]).collect();
                 let repl: Vec<K::F> = repl_t.iter().map(|&t| fns[t as usize].clone()).collect();
-                let subst = Subst::new(svars.clone(), repl);
+                // every other substitution object is created on a freshly spawned thread:
+                // ids handed out to different threads must not collide in the apply cache
+                let subst = if code % 2 == 1 {
+                    let sv = svars.clone();
+                    std::thread::scope(|sc| sc.spawn(move || Subst::new(sv, repl)).join().unwrap())
+                } else {
+                    Subst::new(svars.clone(), repl)
+                };
                 if sub_sample > 1 && mix(cfg.seed ^ ((mask as u64) << 20 | code as u64)) % sub_sample != 0 {
                     continue;
                 }
